@@ -168,6 +168,18 @@ class CursorTranslator(Translator):
                 nc = Cur(c.buf, off)
                 st["locals"][lv[1]] = nc
                 return nc
+            if lv[0] == "local" and isinstance(st["locals"].get(lv[1]), E):
+                is_ptr = False
+                try:
+                    is_ptr = self.ctype(n) == "ptr"
+                except KError:
+                    pass
+                if is_ptr:                 # arithmetic on an opaque pointer (a scratch buffer only ever handed to the primitives)
+                    a = st["locals"][lv[1]]
+                    d = self.as_int(self.rvalue(n["inner"][1], st))
+                    v = E("%s %s %s" % (a.p(), n["opcode"][0], d.p()), 0, (1 << 64) - 1)
+                    st["locals"][lv[1]] = v
+                    return v
         if k == "BinaryOperator" and n["opcode"] in ("+", "-"):
             a = self.rvalue(n["inner"][0], st)
             if isinstance(a, Cur):
@@ -202,6 +214,36 @@ class CursorTranslator(Translator):
                                     min(a.off.lo, b.off.lo), max(a.off.hi, b.off.hi)))
         return super().merge_val(t, get)
 
+    # ---------- statements: `if (a || f (..))` / `if (a && f (..))` with a call in the right operand is rewritten into nested ifs
+    #            (C evaluates the call only when the left operand does not decide)
+    @staticmethod
+    def _has_call(n):
+        if isinstance(n, dict):
+            if n.get("kind") == "CallExpr":
+                return True
+            return any(CursorTranslator._has_call(c) for c in n.get("inner", []))
+        return False
+
+    def run(self, stmts, st, depth=0):
+        if stmts and stmts[0].get("kind") == "IfStmt":
+            s = stmts[0]
+            inner = s["inner"]
+            c = inner[0]
+            while c.get("kind") == "ParenExpr":
+                c = c["inner"][0]
+            if c.get("kind") == "BinaryOperator" and c.get("opcode") in ("||", "&&") and self._has_call(c["inner"][1]):
+                a, b = c["inner"]
+                th = inner[1]
+                el = inner[2] if len(inner) > 2 else None
+                def mk(cond, t, e):
+                    return {"kind": "IfStmt", "inner": [cond, t] + ([e] if e is not None else [])}
+                if c["opcode"] == "||":
+                    new = mk(a, th, mk(b, th, el))
+                else:
+                    new = mk(a, mk(b, th, el), el)
+                return self.run([new] + stmts[1:], st, depth)
+        return super().run(stmts, st, depth)
+
     # ---------- calls
     def dst_name(self, arg, st):
         """name of the object a memcpy/memset destination points to"""
@@ -211,6 +253,8 @@ class CursorTranslator(Translator):
         s = self.strip(arg)
         if s["kind"] == "MemberExpr":
             return self.lvalue(s, st)
+        if s["kind"] == "DeclRefExpr":
+            return ("path", s["referencedDecl"]["name"])          # a local pointer (e.g. a malloc'd scratch buffer): named by the variable
         raise KError("memcpy/memset destination is not a named object")
 
     def call(self, n, st):
@@ -286,6 +330,40 @@ class CursorTranslator(Translator):
                 self.err_strings.append(txt)
             st["events"].append('("m_msg_set_err", [%s, %d])' % (code.s, self.err_strings.index(txt)))
             return lit(-1)
+        h = self.spec.get("calls", {}).get(fn)
+        if h is not None and h[0] == "outinput":
+            # ("outinput", retName, retType, {arg index: (inputName, ctype)}, [arg indices recorded in the event]): the call's result is
+            # an input, and so is what it stores through each `&local` out-parameter; the event carries the listed integer arguments
+            vals = []
+            for i in (h[4] if len(h) > 4 else []):
+                v = self.rvalue(args[i], st)
+                if isinstance(v, Cur):
+                    v = v.off
+                elif isinstance(v, Addr):
+                    raise KError("address argument recorded in an event")
+                vals.append(self.as_int(v))
+            st["events"].append('("%s", [%s])' % (fn, ", ".join(v.s for v in vals)))
+            for i, (nm, ct) in h[3].items():
+                a = self.rvalue(args[i], st)
+                if not (isinstance(a, Addr) and a.lv[0] == "local"):
+                    raise KError("out-parameter %d of %s is not the address of a local" % (i, fn))
+                if nm not in self.used_inputs:
+                    self.used_inputs.append(nm)
+                self.input_types[nm] = ct
+                lo, hi = trange(ct)
+                st["locals"][a.lv[1]] = E(nm, lo, hi, atom=True)
+            # one input per call SITE (two calls of the same function return two different results)
+            sites = self.spec.setdefault("_sites", {}).setdefault(fn, [])
+            sid = n.get("id")
+            if sid not in sites:
+                sites.append(sid)
+            k = sites.index(sid)
+            nm = h[1] if k == 0 else "%s_%d" % (h[1], k + 1)
+            if nm not in self.used_inputs:
+                self.used_inputs.append(nm)
+            self.input_types[nm] = h[2]
+            lo, hi = trange(h[2])
+            return E(nm, lo, hi, atom=True)
         return super().call(n, st)
 
     def _mk_input(self, nm):
